@@ -67,7 +67,7 @@ PROPERTIES = {
             "assumptions": [A_E2E, "a source hashes to two buckets, so the per-source bound checked end to end is 2B + 2R(dt+1) plus one maximal charge of slack", "burst B and rate R are read from the code's constants (hook H3)"]},
     "C17": {"level": "exploration", "legs": [vh("c17-ra-inproc", "c17", "c17"), e2e("c17-ra-e2e", "c17-e2e", "e2e_c17.py")],
             "assumptions": [A_E2E, "RA decoder written from RFC 4861/8106/8781/8910 is the trusted base; RDNSS/DNSSL lifetime when not configured is unconstrained"]},
-    "C18": {"level": "fault_enumeration", "legs": [hist("C18"), vh("c18-schema-inproc", "c18-schema", "c18-schema"), e2e("c18-crash-points-e2e", "c18-e2e", "e2e_c18.py", tq=1200, tt=10800)],
+    "C18": {"level": "fault_enumeration", "legs": [hist("C18"), vh("c18-schema-inproc", "c18-schema", "c18-schema"), e2e("c18-schema-e2e", "c18-schema-e2e", "e2e_c18_schema.py"), e2e("c18-crash-points-e2e", "c18-e2e", "e2e_c18.py", tq=1200, tt=10800)],
             "assumptions": A_HIST + [A_E2E, "crash = SIGKILL of the process at syscall granularity on tmpfs; power loss and torn sector writes are out of reach",
                                      "kill points are enumerated per syscall name by invocation index; the kernel's scheduling decides which thread issues the N-th call"]},
     "C19": {"level": "exploration", "legs": [vh("c19-config-inproc", "c19", "c19", 900, 7200), e2e("c19-dns-config-e2e", "c19-e2e", "e2e_c19.py")],
